@@ -12,8 +12,8 @@ from concurrent.futures import ThreadPoolExecutor
 import vlib
 
 KINDS = {
-    "C05": ["Rebootstrap", "ResumeOlder", "Unattested", "ApplyMismatch", "ApplyOrder", "ApplyNotDurable", "Panic", "NoConverge", "SnapshotConfStale"],
-    "C03": ["AckedLost", "NeverSubmitted", "ContentsVsLog", "Panic", "Rebootstrap"],
+    "C05": ["Rebootstrap", "ResumeOlder", "ResumeNewer", "Unattested", "ApplyMismatch", "ApplyOrder", "ApplyNotDurable", "Panic", "NoConverge", "SnapshotConfStale"],
+    "C03": ["AckedLost", "NeverSubmitted", "ContentsVsLog", "Panic", "Rebootstrap", "ResumeNewer"],
 }
 POINTS = ["ready", "send1", "presave", "saved", "applied", "send2", "preadvance", "advanced"]
 
@@ -60,7 +60,7 @@ def scenarios(ctx):
     for sd in ("vote", "app"):
         add(stepdown=sd, ops=4, opsafter=2)
         for j in range(1 if quick else 4):
-            for p in (["send1", "presave", "saved"] if quick else POINTS):
+            for p in (["send1", "presave", "saved", "advanced"] if quick else POINTS):
                 add(stepdown=sd, crashnode=-1, crashwhen="stepdown", crashpoint=p, ops=4, opsafter=3)
     # the group's membership changes while a follower is away and the others compact their logs: the follower
     # catches up through a snapshot, snapshots locally, dies and restarts from its own store
